@@ -130,10 +130,22 @@ def gen_case(rng, maxlen: int, ph: bool, selfref: bool) -> dict:
 # ------------------------------------------------------------------------------------------------
 # implementation side
 # ------------------------------------------------------------------------------------------------
+NEST_SD = False      # set per case: nested dict values are SDict objects (as after SDict(SDict(...)) or a read), not plain dicts
+
+
+def _nest(v):
+    from dictIO import SDict
+    if isinstance(v, dict):
+        return SDict({k: _nest(x) for k, x in v.items()})
+    if isinstance(v, list):
+        return [_nest(x) for x in v]
+    return v
+
+
 def _mk_sd(j: dict):
     from dictIO import SDict
     from pathlib import Path
-    s = SDict({dec_key(k): dec(v) for k, v in j["data"]})
+    s = SDict({dec_key(k): (_nest(dec(v)) if NEST_SD else dec(v)) for k, v in j["data"]})
     s.line_comments = {i: t for i, t in j.get("lineC", [])}
     s.block_comments = {i: t for i, t in j.get("blockC", [])}
     s.expressions = {i: {"expression": e[0], "name": e[1]} for i, e in j.get("exprs", [])}
@@ -166,7 +178,7 @@ def _share(d: dict) -> dict:
 def _mk_arg(a: dict):
     if "sd" in a:
         return _mk_sd(a["sd"])
-    d = {dec_key(k): dec(v) for k, v in a["plain"]}
+    d = {dec_key(k): (_nest(dec(v)) if NEST_SD else dec(v)) for k, v in a["plain"]}
     return _share(d) if a.get("alias") else d
 
 
@@ -270,6 +282,8 @@ def _has_ph(entries) -> bool:
 
 def run_impl(case: dict):
     """returns list of per-step observations, and list of oracle failures"""
+    global NEST_SD
+    NEST_SD = bool(case.get("nest_sd"))
     s = _mk_sd(case["init"])
     d = impl.plain(dict(s))
     obs, fails = [], []
@@ -332,6 +346,20 @@ def run(ctx: Ctx) -> None:
     for e in getattr(ctx, "fixed_witnesses", []):
         cases.append(e["witness"]); ctx.corpus_cases += 1
     maxlen = 30 if ctx.tier == "quick" else 80
+    # nested values that are SDict objects; sub-dicts whose keys differ only in type (1 / '1') and so print alike
+    twins = [({"limits": {1: "low", 2: "high"}, "k": 1}, {"limits": {"1": "low", "2": "high"}, "k": 1}),
+             ({"limits": {"1": "low"}, "n": {"m": {7: [1, 2]}}}, {"limits": {1: "low"}, "n": {"m": {"7": [1, 2]}}}),
+             ({"a": {"x": 1}}, {"a": {"x": 1.0, "y": 2}}), ({"a": {"x": True}}, {"a": {"x": 1}, "b": {"x": 1}})]
+    for a, b in twins:
+        for x, y in ((a, b), (b, a)):
+            for o in ("merge", "update", "ior", "or"):
+                for nest in (True, False):
+                    cases.append({"kind": "seq", "ph": False, "selfref": False, "nest_sd": nest, "init": {"data": enc_entries(x)},
+                                  "ops": [{"o": o, "a": {"plain": enc_entries(y)}, **({"style": "map"} if o == "update" else {})}, {"o": "merge", "a": {"plain": enc_entries(y)}}]})
+                    ctx.corpus_cases += 1
+    for _ in range(ctx.n(120, 1500)):
+        c = gen_case(rng, 12, ph=False, selfref=False); c["nest_sd"] = True
+        cases.append(c)
     for _ in range(ctx.n(700, 5000)):
         cases.append(gen_case(rng, maxlen, ph=False, selfref=False))
     for _ in range(ctx.n(250, 2000)):
